@@ -2,6 +2,7 @@
 from __future__ import annotations
 
 import ast
+import os
 import time
 import traceback
 from dataclasses import dataclass, field
@@ -87,6 +88,21 @@ class Executor(AccessMixin, BuiltinsMixin, StmtMixin, ExecutorBase):
             while f.entry_alloc is None and f.parent_env is not None:
                 f = f.parent_env
             return SV(mk_bool(z3.And(Val.is_VRef(v.term), RID(v.term) >= f.entry_alloc)), Ty("bool"))
+        if name == "forall_objects":
+            # heap-wide quantifier: forall_objects('Cls', lambda x: P(x)) over every allocated instance of Cls
+            ci = self.repo.resolve_class(node.args[0].value, fr.module)
+            lam = node.args[1]
+            v = z3.Const("o!" + lam.args.args[0].arg, Val)
+            subs = self.repo.subclasses(ci)
+            guard = z3.And(Val.is_VRef(v), z3.Or([self.st.read("$type", RID(v)) == c.cid for c in subs]))
+            nf = Frame(fr.func, fr.module, None, parent_env=fr)
+            nf.locals[lam.args.args[0].arg] = SV(v, Ty(ci.name))
+            self.qdepth += 1
+            try:
+                body = self.truthy(self.ev(lam.body, nf))
+            finally:
+                self.qdepth -= 1
+            return SV(mk_bool(z3.ForAll([v], z3.Implies(guard, body))), Ty("bool"))
         if name == "same_elements":
             a, b = self.ev(node.args[0], fr), self.ev(node.args[1], fr)
             return SV(mk_bool(self.list_eq(a, b)), Ty("bool"))
@@ -442,6 +458,8 @@ def verify_function(repo: Repo, contracts: dict, target: str, prop_id: str, max_
             work.extend(st.pending)
     except Unsupported as e:
         rep.status, rep.reason = "not-verifiable", f"outside subset: {e}"
+        if os.environ.get("PYVC_TRACE"):
+            rep.reason += "\n" + traceback.format_exc()[-2500:]
     except Exception as e:  # checker bug: never a verdict
         rep.status, rep.reason = "crashed", f"{type(e).__name__}: {e}\n{traceback.format_exc()[-1500:]}"
     rep.dropped = sorted(ex.dropped)
